@@ -6,7 +6,7 @@
     decoders must perform accepts only valid MOCs. *)
 From Coq Require Import List NArith.
 From MOC.Base Require Import RangeSet.
-From MOC.Model Require Import Qty Query Build Repr TextValid.
+From MOC.Model Require Import Qty Query Build Repr TextValid FitsGuards.
 Import ListNotations.
 Open Scope N_scope.
 
@@ -33,6 +33,26 @@ Example C12_nonvacuous :
   text_accept Hpx 64 [(5, (1, 2)); (3, (760, 768))] = true.
 Proof. repeat split; vm_compute; reflexivity. Qed.
 
+(** the size arithmetic of the two FITS map readers, with machine semantics explicit (a subtraction
+    below zero is the outcome Panic): for EVERY header value the outcome is Ok or Err, never Panic, and
+    an accepted header requests at most 65535 bytes for the skip buffer; the guard without [* n_pack]
+    (seeded change S-C12-2) does reach Panic *)
+Theorem C12_skymap_header_arithmetic_total : forall is_f64 n_pack naxis1 naxis2 ncells,
+  skymap_guard is_f64 n_pack naxis1 naxis2 ncells <> Panic /\
+  forall skip, skymap_guard is_f64 n_pack naxis1 naxis2 ncells = Ok skip ->
+    skip <= 65535 /\ skip + (if is_f64 then 8 else 4) * n_pack = naxis1 /\ naxis2 * n_pack = ncells.
+Proof. exact skymap_guard_total. Qed.
+
+Theorem C12_multiordermap_header_arithmetic_total : forall naxis1, mom_guard naxis1 <> Panic /\
+  forall skip, mom_guard naxis1 = Ok skip -> skip <= 65535 /\ skip + 16 = naxis1.
+Proof. exact mom_guard_total. Qed.
+
+Theorem C12_skymap_guard_without_n_pack_refuted : skymap_guard_d false 1024 4 12 (12 * 1024) = Panic.
+Proof. exact skymap_guard_d_refuted. Qed.
+
 Print Assumptions C12_accepted_text_is_a_valid_moc.
 Print Assumptions C12_accepted_cells_inside_their_domain.
 Print Assumptions C12_accepted_cover.
+Print Assumptions C12_skymap_header_arithmetic_total.
+Print Assumptions C12_multiordermap_header_arithmetic_total.
+Print Assumptions C12_skymap_guard_without_n_pack_refuted.
